@@ -55,7 +55,7 @@ ASSUMPTIONS = [
     "sampling of scenarios; exhaustive only over close() injection points of each scenario in the thorough tier",
 ]
 MUST_FIRE = {
-    "quick": ["close_phase=backoff_sleep", "close_phase=pending_attempt", "close_phase=connected", "soak_runs"],
+    "quick": ["close_phase=before_first_step", "close_phase=backoff_sleep", "close_phase=pending_attempt", "close_phase=connected", "soak_runs"],
     "thorough": ["close_phase=backoff_sleep", "close_phase=pending_attempt", "close_phase=connected", "close_same_iter=attempt_end", "close_same_iter=loss", "soak_runs", "loss_injected_at_iteration", "close_called_again"],
 }
 
@@ -142,13 +142,14 @@ def gen(rng, tier, index):
     yield base
     points = []
     if tier == "thorough":
-        for k in range(1, max(2, n_iter)):
+        for k in range(0, max(2, n_iter)):  # k = 0: close() after the loop task was created, before its first step
             for p in (0, 1, 2, -1):
                 points.append((k, p))
         if len(points) > 900:
             points = rng.sample(points, 900)
     else:
-        for _ in range(14):
+        points.append((0, rng.choice([0, 1, -1])))
+        for _ in range(13):
             points.append((rng.randint(1, max(1, n_iter - 1)), rng.choice([0, 0, 1, 2, -1, -1])))
     for k, p in points:
         sc = copy.deepcopy(base)
@@ -197,7 +198,7 @@ def execute(sc):
             probes[f"close_same_iter={flag}"] = 1
         prefix = "".join(dict(e[3])["o"][0] for e in rig.events if e[0] == "attempt_start" and e[2] <= closes[0][2])
         states.append((kw["phase"], kw["same_iter"], prefix[:8]))
-        nontrivial = kw["phase"] not in ("before_first_attempt", "loop_not_running")
+        nontrivial = kw["phase"] not in ("before_first_attempt", "loop_not_running", "before_first_step")
     elif sc.get("kind") != "soak":
         nontrivial = faults["connect_fail"] + faults["loss"] > 0
     probes["max_pending_tasks"] = 0  # reported through max below
